@@ -120,11 +120,100 @@ pub fn probe_r14() -> SimCampaign {
     c
 }
 
+/// The turn is on a member whose window is full (it never acknowledges on its own), the other
+/// members have read the pending messages and are parked; then the generated part of the
+/// history makes members leave (which may move the turn by shifting the index) before anybody
+/// acknowledges. Whoever the turn is on afterwards must take the backlog.
+pub fn turn_shift_campaign() -> SimCampaign {
+    let mut c = main_campaign();
+    c.name = "turn_shift";
+    c.gen.min_clients = 3;
+    c.gen.max_clients = 3;
+    c.gen.max_chunks = 12;
+    c.gen.w_publish = 4;
+    c.gen.w_burst = 0;
+    c.gen.w_unsubscribe = 14;
+    c.gen.w_droplink = 8;
+    c.gen.w_disconnect = 4;
+    c.gen.w_reconnect = 2;
+    c.gen.w_shared_sub = 4;
+    c.gen.w_ack = 1;
+    c.gen.w_settle = 0;
+    c.gen.w_subscribe = 0;
+    c.gen.filters = vec!["zz".to_string()];
+    c.quick = 3000;
+    c.thorough = 60000;
+    c.shape = Some(|mut h: Hist| {
+        h.cfg.strategy = 0;
+        h.cfg.max_out = 200;
+        h.cfg.seg_size = 65536;
+        h.cfg.seg_count = 3;
+        for (i, cl) in h.clients.iter_mut().enumerate() {
+            cl.auto_ack = i != 2;
+            cl.auto_ready = true;
+        }
+        let f = "$share/g1/a/#".to_string();
+        let mut pre: Vec<Op> = Vec::new();
+        for c in 0..3 {
+            pre.push(Op::Connect { c, clean: true, will: None, alias_max: 0 });
+        }
+        pre.push(Op::Turn { n: 3 });
+        // the last member's window is filled through a plain subscription of its own (it never
+        // acknowledges on its own), so that nothing of the group is in flight towards it
+        pre.push(Op::Subscribe { c: 2, filters: vec![("c".to_string(), 1)], sub_id: None, notify: true });
+        pre.push(Op::Turn { n: 2 });
+        for k in 0..100usize {
+            pre.push(Op::Publish { c: 0, topic: "c".into(), qos: 1, retain: false, size: 8, props: None, notify: k % 10 == 9, dup: false });
+        }
+        for _ in 0..4 {
+            pre.push(Op::Turn { n: 40 });
+            for c in 0..3 {
+                pre.push(Op::Drain { c });
+            }
+        }
+        for c in 0..3 {
+            pre.push(Op::Subscribe { c, filters: vec![(f.clone(), 1)], sub_id: None, notify: true });
+            pre.push(Op::Turn { n: 2 });
+        }
+        // one message each for the first two members, then the turn is on the blocked one
+        let extra = 3 + h.ops.len() % 3;
+        for _ in 0..extra {
+            pre.push(Op::Publish { c: 0, topic: "a".into(), qos: 1, retain: false, size: 8, props: None, notify: true, dup: false });
+            pre.push(Op::Turn { n: 6 });
+        }
+        for _ in 0..2 {
+            pre.push(Op::Turn { n: 20 });
+            for c in 0..3 {
+                pre.push(Op::Drain { c });
+            }
+        }
+        // the generated part: no connects of its own at the start (the members are connected)
+        let rest: Vec<Op> = h.ops.drain(..).skip_while(|o| matches!(o, Op::Connect { .. } | Op::Turn { .. })).collect();
+        // in half of the cases the first member (ahead of the turn index) leaves at once and
+        // the blocked turn holder's link fails right after, before anything else happens
+        if rest.len() % 2 == 0 {
+            if rest.len() % 4 == 0 {
+                pre.push(Op::Unsubscribe { c: 0, filters: vec![f.clone()], notify: true });
+            } else {
+                pre.push(Op::DropLink { c: 0 });
+            }
+            pre.push(Op::Turn { n: 4 });
+            pre.push(Op::DropLink { c: 2 });
+            pre.push(Op::Turn { n: 4 });
+        }
+        h.ops = pre;
+        h.ops.extend(rest);
+        h
+    });
+    c.nontrivial = |s, _| if s.saw_inflight_full && s.group_membership_changes > 0 && s.shared_forwards >= 2 { Some("full_window_then_membership_change".into()) } else { None };
+    c
+}
+
 pub fn plan(_tier: Tier) -> Plan {
     Plan {
-        campaigns: vec![Box::new(main_campaign()), Box::new(probe_r10()), Box::new(probe_r14())],
+        campaigns: vec![Box::new(main_campaign()), Box::new(turn_shift_campaign()), Box::new(probe_r10()), Box::new(probe_r14())],
         enumerators: vec![],
-        rule: "Histories with 1-2 shared groups ($share/g1/.., $share/g2/..) and 3-5 clean-session clients joining, leaving (UNSUBSCRIBE of the group filter, DISCONNECT, link failure, reconnect), bursts and single publishes, per-member ack pacing, the three balancing strategies, QoS 0-2. Oracle over all members' streams: a message is forwarded through a group at most once in total, only to a client that was a member at some moment between the message's acceptance and the delivery, each member's share is in acceptance order; at every idle point every matching message accepted since the group was created has been forwarded to some member (groups that were empty in between or exceeded retention excepted). Non-trivial: >=2 members, >=1 membership change, >=1 forward through a group.".into(),
+        rule: "Histories with 1-2 shared groups ($share/g1/.., $share/g2/..) and 3-5 clean-session clients joining, leaving (UNSUBSCRIBE of the group filter, DISCONNECT, link failure, reconnect), bursts and single publishes, per-member ack pacing, the three balancing strategies, QoS 0-2. Oracle over all members' streams: a message is forwarded through a group at most once in total, only to a client that was a member at some moment between the message's acceptance and the delivery, each member's share is in acceptance order; at every idle point every matching message accepted since the group was created has been forwarded to some member (groups that were empty in between or exceeded retention excepted). Campaign turn_shift: the last member's window is filled through a plain subscription of its own, one message per other member is forwarded, the rest is pending with the others parked; then members leave (index shift, blocked holder failing) before anybody acknowledges, and whoever holds the turn must take the backlog. Non-trivial: >=2 members, >=1 membership change, >=1 forward through a group.".into(),
         assumptions: vec![
             "Members use clean sessions (re-delivery after a session resume would make 'never twice' ambiguous)".into(),
             "Group members also unsubscribe from unrelated filters (R11 was repaired in /repo)".into(),
